@@ -11,7 +11,7 @@ theorems `bfix_*` in lean/VsgProofs/Properties/C01.lean / C02.lean / C03.lean).
 (2) the Lean negation witnesses (`move_codeSeq_false`, `moveSeq_codeSeq_false`, `removeCr_celSafe_false`, `removeCrAfter_celSafe_false`, `removeCrAfter_preprocSafe_false`,
     `move_celSafe_false`, `moveLeft_commentSeq_false`) replayed on the REAL classes;
 (3) search on the REAL fix path (whole files, default rule set) for inputs on which a rule of the family
-    reorders code, lets a comment swallow code or glues code onto a preprocessor line.
+    reorders code, lets a comment swallow code, glues code onto a preprocessor line or indents a preprocessor line.
 `check_into(res, prop, tier)` folds (1)–(3) into a C01 / C02 run.
 """
 import contextlib
@@ -83,6 +83,10 @@ def _preproc_lines(text):
     return [l.strip() for l in text.split("\n") if l.strip().startswith("#")]
 
 
+def _preproc_raw_lines(text):
+    return [l for l in text.split("\n") if l.strip().startswith("#")]
+
+
 def _defect_job(args):
     """runs the real fix on one text; returns findings of the family's owners"""
     import sweep
@@ -115,6 +119,14 @@ def _defect_job(args):
                         if site in FAMILY_SITES:
                             line = next((l for l in a.split("\n") if lost[0] in l), "")
                             found.append({"prop": "C02", "site": site, "kind": "preprocessorAbsorbsCode", "detail": "%s: preprocessor line %r becomes %r" % (st.rule, lost[0], line.strip()), "input": {"text": text, "snippet": name, "gaps": gaps}})
+                        break
+                    # … and verbatim: a step that puts whitespace in front of a directive (any base class; the next run adds more,
+                    # because the re-parsed directive is ONE token that includes its leading blanks)
+                    moved = [p for p in _preproc_raw_lines(b) if p not in _preproc_raw_lines(a)]
+                    if moved:
+                        site = sweep._W["owner"].get(st.rule, st.rule)
+                        line = next((l for l in a.split("\n") if moved[0].strip() in l), "")
+                        found.append({"prop": "C02", "site": site, "kind": "preprocessorLineIndented", "detail": "%s: preprocessor line %r becomes %r" % (st.rule, moved[0], line), "input": {"text": text, "snippet": name, "gaps": gaps}})
                         break
         except Exception as e:  # noqa: BLE001 - crashes are C19's business
             found.append({"prop": "C19", "site": "?", "kind": type(e).__name__, "detail": repr(e)[:200], "input": {"text": text}})
